@@ -24,11 +24,15 @@
 //	switch with fallthrough   → a chain of guarded arms ("entered" flag carried along fallthrough)
 //	calls of other translated functions of the same package → application; len → length
 //	for i := a; i < b; i++ {…} → a helper definition `<fn>_loop<k>` by structural recursion on a fuel argument: one
-//	                            unfolding = test the condition, run the body, increment; the call site passes the fuel
-//	                            (b - a).toNat, which is the exact trip count whenever a ≤ b (and the condition is false
-//	                            at once otherwise). Accepted only when the body contains no break / continue / goto /
-//	                            return and assigns neither i nor a variable of the bound b. The variables assigned in
-//	                            the body are the loop-carried state (returned as a tuple).
+//	(also i <= b; i++, i > b;   unfolding = test the condition, run the body, step by one; the call site passes as fuel the
+//	 i--, i >= b; i--)          trip count ((b - a).toNat, +1 for <=, a and b swapped for the descending forms), exact whenever
+//	                            the loop runs without i wrapping around (the condition is false at once otherwise; a loop
+//	                            that only ends by wrap-around in Go is NOT represented). Accepted only when the body
+//	                            contains no break / continue / goto / return / closure and assigns neither i nor a
+//	                            variable of the bound b. The variables assigned in the body are the loop-carried state.
+//	for i := range x, for i, v := range x, for _, v := range x (x a []byte variable) → the counted loop it abbreviates
+//	                            (i from 0 below len(x), v := x[i] at the head of the body)
+//	bits.LeadingZeros64/32/8(x) → BitVec.clz (zero-extended to int)
 //	"externs" (targets.json)  → a function of the package that is NOT translated (unsafe pointer code): its Lean
 //	                            definition is given in targets.json (TRUSTED, printed in the generated file under the
 //	                            word EXTERN) together with the Go source text it was written for; a change of that
@@ -97,6 +101,7 @@ type tr struct {
 	helpers []string
 	selTy   map[string]ty
 	swCount int
+	rngCount int
 	cnt     map[string]int // helper definitions (switch, loop) are numbered per translated function / segment
 	indent  int
 }
@@ -468,6 +473,20 @@ func (t *tr) call(x *ast.CallExpr) string {
 			return "(" + leanName(id.Name) + " " + strings.Join(as, " ") + ")"
 		}
 	}
+	// math/bits
+	if se, ok := x.Fun.(*ast.SelectorExpr); ok && len(x.Args) == 1 {
+		if pk, ok := se.X.(*ast.Ident); ok {
+			if pn, ok := t.info.Uses[pk].(*types.PkgName); ok && pn.Imported().Path() == "math/bits" {
+				if ay, ok := t.typeOfExpr(x.Args[0]); ok && ay.kind == "bv" && !ay.signed {
+					want := map[string]int{"LeadingZeros64": 64, "LeadingZeros32": 32, "LeadingZeros16": 16, "LeadingZeros8": 8}
+					if w, ok := want[se.Sel.Name]; ok && w == ay.w {
+						return fmt.Sprintf("((BitVec.clz %s).setWidth 64)", t.expr(x.Args[0]))
+					}
+				}
+				return t.fail(x, "math/bits call %s", src(t.fset, x))
+			}
+		}
+	}
 	// method call recv.M(args) of a translated method `T.M`
 	if se, ok := x.Fun.(*ast.SelectorExpr); ok {
 		if sel := t.info.Uses[se.Sel]; sel != nil {
@@ -722,6 +741,8 @@ func (t *tr) stmts(list []ast.Stmt, tail func() string, results []string) string
 		return t.switchStmt(x) + cont()
 	case *ast.ForStmt:
 		return t.forStmt(x) + cont()
+	case *ast.RangeStmt:
+		return t.rangeStmt(x) + cont()
 	case *ast.BlockStmt:
 		return t.stmts(append(append([]ast.Stmt{}, x.List...), rest...), tail, results)
 	}
@@ -747,7 +768,7 @@ func (t *tr) assign(x *ast.AssignStmt) string {
 					v = t.opAssign(x, cur, rhs, ty{"bv", 8, false, nil})
 				}
 				t.notes = append(t.notes, fmt.Sprintf("%s: store %s totalised (List.set)", t.curFn, src(t.fset, ix)))
-				return fmt.Sprintf("%slet %s := %s.set %s %s\n", p, leanName(id.Name), leanName(id.Name), t.natOf(ix.Index), v)
+				return fmt.Sprintf("%slet %s := %s.set %s (%s)\n", p, leanName(id.Name), leanName(id.Name), t.natOf(ix.Index), v)
 			}
 			return p + t.fail(x, "indexed store") + "\n"
 		}
@@ -944,14 +965,53 @@ func (t *tr) switchStmt(x *ast.SwitchStmt) string {
 }
 
 
-// for i := a; i < b; i++ { body }   (counted loop; see the header comment for the accepted form)
+// counted loops (see the header comment for the accepted forms):
+//   for i := a; i < b; i++ / i <= b; i++ / i > b; i-- / i >= b; i-- { body }      and      for i := range x / for i, v := range x (x a byte slice)
+// A range statement is rewritten to the ForStmt it abbreviates before translation.
+func (t *tr) rangeStmt(r *ast.RangeStmt) string {
+	p := t.pad()
+	y, ok := t.typeOfExpr(r.X)
+	key, okk := r.Key.(*ast.Ident)
+	if !ok || y.kind != "bytes" || r.Tok != token.DEFINE || !okk {
+		return p + t.fail(r, "range statement form (only `for i := range bytes` / `for i, v := range bytes` / `for _, v := range bytes`)") + "\n"
+	}
+	if _, isId := r.X.(*ast.Ident); !isId {
+		return p + t.fail(r, "range over a non-variable") + "\n"
+	}
+	t.rngCount++
+	iname := key.Name
+	if iname == "_" {
+		iname = fmt.Sprintf("rng_i%d", t.rngCount)
+	}
+	var pre []string
+	if r.Value != nil {
+		v, okv := r.Value.(*ast.Ident)
+		if !okv {
+			return p + t.fail(r, "range value") + "\n"
+		}
+		if v.Name != "_" {
+			t.notes = append(t.notes, fmt.Sprintf("%s: range value %s := %s[%s] totalised (getD … 0)", t.curFn, v.Name, src(t.fset, r.X), iname))
+			pre = append(pre, fmt.Sprintf("let %s := (%s.getD %s.toNat 0#8)", leanName(v.Name), t.expr(r.X), leanName(iname)))
+		}
+	}
+	return t.loop(r, r.Body, leanName(iname), ty{"bv", 64, true, nil}, "0x0#64", "(BitVec.ofNat 64 "+t.expr(r.X)+".length)", token.LSS, true,
+		[]ast.Node{r.X}, pre, "range "+src(t.fset, r.X), key.Name)
+}
+
 func (t *tr) forStmt(x *ast.ForStmt) string {
 	p := t.pad()
 	init, ok1 := x.Init.(*ast.AssignStmt)
 	cond, ok2 := x.Cond.(*ast.BinaryExpr)
 	post, ok3 := x.Post.(*ast.IncDecStmt)
-	if !ok1 || !ok2 || !ok3 || init.Tok != token.DEFINE || len(init.Lhs) != 1 || len(init.Rhs) != 1 || cond.Op != token.LSS || post.Tok != token.INC {
-		return p + t.fail(x, "for statement form (only `for i := a; i < b; i++`)") + "\n"
+	if !ok1 || !ok2 || !ok3 || init.Tok != token.DEFINE || len(init.Lhs) != 1 || len(init.Rhs) != 1 {
+		return p + t.fail(x, "for statement form (only `for i := a; i <|<=|>|>= b; i++|i--`)") + "\n"
+	}
+	up := post.Tok == token.INC
+	switch {
+	case up && (cond.Op == token.LSS || cond.Op == token.LEQ):
+	case !up && (cond.Op == token.GTR || cond.Op == token.GEQ):
+	default:
+		return p + t.fail(x, "for statement form (condition %s with %s)", cond.Op, post.Tok) + "\n"
 	}
 	iv, ok := init.Lhs[0].(*ast.Ident)
 	ci, okc := cond.X.(*ast.Ident)
@@ -967,8 +1027,17 @@ func (t *tr) forStmt(x *ast.ForStmt) string {
 	if !ok || iy.kind != "bv" {
 		return p + t.fail(x, "loop variable type") + "\n"
 	}
+	return t.loop(x, x.Body, leanName(iv.Name), iy, t.expr(init.Rhs[0]), t.expr(cond.Y), cond.Op, up, []ast.Node{cond.Y}, nil,
+		src(t.fset, init)+"; "+src(t.fset, cond)+"; "+src(t.fset, post), iv.Name)
+}
+
+// loop emits the helper definition for a counted loop and returns the call. `a` and `b` are the translated start and
+// bound, `op` the comparison `i op b`, `up` the direction of the step (±1); `boundNodes` are the Go expressions the bound
+// is made of (none of their variables may be assigned in the body); `pre` are let-lines put in front of the body.
+func (t *tr) loop(x ast.Node, body *ast.BlockStmt, i string, iy ty, a, b string, op token.Token, up bool, boundNodes []ast.Node, pre []string, what, goI string) string {
+	p := t.pad()
 	bad := ""
-	ast.Inspect(x.Body, func(n ast.Node) bool {
+	ast.Inspect(body, func(n ast.Node) bool {
 		switch n.(type) {
 		case *ast.BranchStmt:
 			bad = "break/continue/goto"
@@ -982,21 +1051,23 @@ func (t *tr) forStmt(x *ast.ForStmt) string {
 	if bad != "" {
 		return p + t.fail(x, "%s inside a loop body", bad) + "\n"
 	}
-	carried := t.assigned(x.Body.List)
+	carried := t.assigned(body.List)
 	isCarried := map[string]bool{}
 	for _, c := range carried {
 		isCarried[c] = true
 	}
-	if isCarried[iv.Name] {
+	if isCarried[goI] {
 		return p + t.fail(x, "loop variable assigned in the body") + "\n"
 	}
 	boundBad := false
-	ast.Inspect(cond.Y, func(n ast.Node) bool {
-		if id, ok := n.(*ast.Ident); ok && isCarried[id.Name] {
-			boundBad = true
-		}
-		return true
-	})
+	for _, bn := range boundNodes {
+		ast.Inspect(bn, func(n ast.Node) bool {
+			if id, ok := n.(*ast.Ident); ok && isCarried[id.Name] {
+				boundBad = true
+			}
+			return true
+		})
+	}
 	if boundBad {
 		return p + t.fail(x, "loop bound assigned in the body") + "\n"
 	}
@@ -1033,8 +1104,10 @@ func (t *tr) forStmt(x *ast.ForStmt) string {
 			return true
 		})
 	}
-	collect(cond.Y)
-	collect(x.Body)
+	for _, bn := range boundNodes {
+		collect(bn)
+	}
+	collect(body)
 	sort.Slice(pvs, func(i, j int) bool { return pvs[i].pos < pvs[j].pos })
 	t.cnt[t.curFn]++
 	hname := leanName(strings.ReplaceAll(strings.ReplaceAll(t.curFn, "/", "_"), ".", "_")) + fmt.Sprintf("_loop%d", t.cnt[t.curFn])
@@ -1061,10 +1134,9 @@ func (t *tr) forStmt(x *ast.ForStmt) string {
 		}
 	}
 	tp := tuple(carried)
-	i := leanName(iv.Name)
 	pos := t.fset.Position(x.Pos())
-	h := fmt.Sprintf("/-- %s: the loop `for %s; %s; %s` of `%s`: at most `fuel` iterations; carried variables %s -/\n",
-		filepath.Base(pos.Filename), src(t.fset, init), src(t.fset, cond), src(t.fset, post), t.curFn, strings.Join(carried, ", "))
+	h := fmt.Sprintf("/-- %s: the loop `for %s` of `%s`: at most `fuel` iterations; carried variables %s -/\n",
+		filepath.Base(pos.Filename), what, t.curFn, strings.Join(carried, ", "))
 	h += fmt.Sprintf("def %s %s (fuel : Nat) (%s : %s) %s : %s :=\n", hname, strings.Join(fdecls, " "), i, iy.lean(), strings.Join(cdecls, " "), strings.Join(rtys, " × "))
 	saved := t.indent
 	t.indent = 1
@@ -1072,17 +1144,48 @@ func (t *tr) forStmt(x *ast.ForStmt) string {
 	h += hp + "match fuel with\n" + hp + "| 0 => " + tp + "\n" + hp + "| fuel + 1 =>\n"
 	t.indent = 2
 	hp = t.pad()
-	h += hp + "if " + t.expr(x.Cond) + " then\n"
+	cmp := map[token.Token][2]string{token.LSS: {"BitVec.slt", "BitVec.ult"}, token.LEQ: {"BitVec.sle", "BitVec.ule"}}
+	var condS string
+	sg := 1
+	if iy.signed {
+		sg = 0
+	}
+	switch op {
+	case token.LSS, token.LEQ:
+		condS = fmt.Sprintf("(%s %s %s)", cmp[op][sg], i, b)
+	case token.GTR:
+		condS = fmt.Sprintf("(%s %s %s)", cmp[token.LSS][sg], b, i)
+	case token.GEQ:
+		condS = fmt.Sprintf("(%s %s %s)", cmp[token.LEQ][sg], b, i)
+	}
+	h += hp + "if " + condS + " then\n"
 	t.indent = 3
-	rec := fmt.Sprintf("%s %s fuel (%s + 0x1#%d) %s", hname, strings.Join(fargs, " "), i, iy.w, strings.Join(cargs, " "))
-	h += t.stmts(x.Body.List, func() string { return rec }, nil)
+	step := "+"
+	if !up {
+		step = "-"
+	}
+	rec := fmt.Sprintf("%s %s fuel (%s %s 0x1#%d) %s", hname, strings.Join(fargs, " "), i, step, iy.w, strings.Join(cargs, " "))
+	for _, l := range pre {
+		h += t.pad() + l + "\n"
+	}
+	h += t.stmts(body.List, func() string { return rec }, nil)
 	t.indent = 2
 	h += hp + "else " + tp + "\n"
 	t.indent = saved
 	t.helpers = append(t.helpers, h)
-	a := t.expr(init.Rhs[0])
-	b := t.expr(cond.Y)
-	return fmt.Sprintf("%slet %s := %s %s ((%s - %s).toNat) %s %s\n", p, tp, hname, strings.Join(fargs, " "), b, a, a, strings.Join(cargs, " "))
+	// the trip count (exact whenever the loop runs without wrapping; the condition is false at once otherwise)
+	var fuel string
+	switch op {
+	case token.LSS:
+		fuel = fmt.Sprintf("((%s - %s).toNat)", b, a)
+	case token.LEQ:
+		fuel = fmt.Sprintf("((%s - %s).toNat + 1)", b, a)
+	case token.GTR:
+		fuel = fmt.Sprintf("((%s - %s).toNat)", a, b)
+	case token.GEQ:
+		fuel = fmt.Sprintf("((%s - %s).toNat + 1)", a, b)
+	}
+	return fmt.Sprintf("%slet %s := %s %s %s %s %s\n", p, tp, hname, strings.Join(fargs, " "), fuel, a, strings.Join(cargs, " "))
 }
 
 // ---- functions, segments, constants
@@ -1167,10 +1270,14 @@ func findSegment(fset *token.FileSet, body *ast.BlockStmt, first, last string) [
 		default:
 			return true
 		}
+		// a pattern ending in "{" names a compound statement (for / if / switch) by its header
+		match := func(text, pat string) bool {
+			return text == pat || (strings.HasSuffix(pat, "{") && strings.HasPrefix(text, pat))
+		}
 		for i, s := range list {
-			if src(fset, s) == first {
+			if match(src(fset, s), first) {
 				for j := i; j < len(list); j++ {
-					if src(fset, list[j]) == last {
+					if match(src(fset, list[j]), last) {
 						found = list[i : j+1]
 						return false
 					}
